@@ -10,7 +10,8 @@ META = {
                   "result-equality part: the count / reduce / find kernels under Auto, Exact(c), Min(c) for the dense small grid"],
     "bounds": {"quick": {"arithmetic": "all NumThreads x ChunkSize(any NonZero usize) x ParTask x Option<usize>, full 64-bit; available_parallelism 1..=16",
                          "grid": "n in 0..3, threads in {Auto,1,2}, chunk in {Auto, Exact(1..=n+1), Min(1..=n+1)} on count/reduce/find (symbolic schedule)"},
-               "thorough": {"arithmetic": "same + available_parallelism 1..=1024", "grid": "n in 0..4, threads {Auto,1,2,3}"}},
+               "thorough": {"arithmetic": "same + available_parallelism 1..=1024 for Runner::new and the division path",
+                            "grid": "n in 0..4 (ChunkSize::Auto only up to n = 3), threads {Auto,2,3}"}},
     "outside": ["large input lengths are covered only by the arithmetic (totality) part", "available_parallelism() = Err"],
     "assumptions": COMMON_ASSUMPTIONS + ["HasMore::Yes(r) is only produced with r <= the source length (contract of try_get_len)"],
 }
@@ -37,9 +38,10 @@ def harnesses(tier, seed):
     for apmax in apmaxes:
         hs.append(arith.arith(f"c15_runner_new_total_ap{apmax}", apmax, arith.TOTALITY, covers=arith.COV,
                               desc={"claim": "Runner::new never panics; threads >= 1; chunk >= 1"}))
-        hs.append(arith.arith(f"c15_next_chunk_total_nodiv_ap{apmax}", apmax, arith.NEXT_TOTAL, with_hm=True,
-                              hm_constraint=arith.NO_DIV, covers="    kani::cover!(hmk == 2 && csk == 2 && k > 0 && nc.is_some());\n",
-                              desc={"claim": "do_spawn / next_chunk_size never panic; chunk >= 1 (all paths without division, full width)"}))
+        if apmax <= 16:   # with available_parallelism up to 1024 this query does not finish in 30 min
+            hs.append(arith.arith(f"c15_next_chunk_total_nodiv_ap{apmax}", apmax, arith.NEXT_TOTAL, with_hm=True,
+                                  hm_constraint=arith.NO_DIV, covers="    kani::cover!(hmk == 2 && csk == 2 && k > 0 && nc.is_some());\n",
+                                  desc={"claim": "do_spawn / next_chunk_size never panic; chunk >= 1 (all paths without division, full width)"}))
         hs.append(arith.arith(f"c15_next_chunk_total_div16_ap{apmax}", apmax, arith.NEXT_TOTAL, with_hm=True,
                               hm_constraint=arith.DIV_ONLY, covers=arith.COV_HM,
                               desc={"claim": "adaptive growth path of next_chunk_size never panics; chunk >= 1", "width": "len, chunk, spawned below 2^16"}))
@@ -50,6 +52,8 @@ def harnesses(tier, seed):
         for n in ns:
             for nt in nts:
                 for kind in ("auto", "exact", "min"):
+                    if kind == "auto" and n > 3:
+                        continue   # ChunkSize::Auto needs unwind 23: 10-20 min per query at n = 4
                     cs = (1,) if kind == "auto" else tuple(range(1, n + 2))
                     if tier == "quick" and kind != "auto":
                         cs = tuple(c for c in cs if c in (1, n, n + 1))
